@@ -447,6 +447,8 @@ pub trait Driver: Send + Sync {
     fn clear(&self, w: &World);
     /// Observe every slot of the slice view (if any) and run the structural hook.
     fn observe_slices(&self, w: &World) -> Result<u64, String>;
+    fn register_reader(&self, w: &World) -> Option<ReaderId<ComponentEvent>>;
+    fn read_events(&self, w: &World, r: &mut ReaderId<ComponentEvent>) -> Vec<ComponentEvent>;
 }
 
 pub struct Drv<C: Comp>(pub PhantomData<fn() -> C>);
@@ -773,6 +775,14 @@ where
         let n = C::slice_observe(&s);
         C::structural(&s)?;
         Ok(n)
+    }
+    fn register_reader(&self, w: &World) -> Option<ReaderId<ComponentEvent>> {
+        let mut s = w.write_storage::<C>();
+        C::register_reader(&mut s)
+    }
+    fn read_events(&self, w: &World, r: &mut ReaderId<ComponentEvent>) -> Vec<ComponentEvent> {
+        let s = w.read_storage::<C>();
+        C::read_events(&s, r)
     }
 }
 
